@@ -257,7 +257,8 @@ def gen_value(rng, curves=False, width=None):
     if r < 0.58:
         return ["npf", float(rng.choice([0.0, 2.5, -0.125])).hex()]
     if r < 0.68:
-        return ["s", rng.choice(["12", "1.50", "-3", "1e5", "+4", "007", ".5", "15_9", "1,5", "٣", "nan", "inf", "0", "0.0"])]
+        return ["s", rng.choice(["12", "1.50", "-3", "1e5", "+4", "007", ".5", "15_9", "1,5", "٣", "nan", "inf", "0", "0.0",
+                                 "LSD 12,4 SEC 7", "1,5-2,5", "KB 12,5 ft", "1,234,567", "a1,2b"])]
     return ["s", gen_text(rng, None, curves)]
 
 
